@@ -24,9 +24,11 @@ if [ "$demo" != "-" ]; then
   rm -f "$wt/zz_demo_test.go"; git -C "$wt" apply "$patch"
   git -C "$wt" diff --quiet && { echo "MUTANT-ERROR change not applied for the checks"; exit 2; }
 fi
-(cd /verif/harness && go build -tags verif -o "$wt/.vcheck" ./cmd/vcheck) || { echo "MUTANT-ERROR driver build"; exit 2; }
+# a private snapshot of the harness, so that edits to /verif during the run do not mix into it
+snap="$wt/.verif"; mkdir -p "$snap"; cp -r /verif/harness "$snap/harness"; cp /verif/known_findings.json "$snap/"
+(cd "$snap/harness" && go build -tags verif -o "$wt/.vcheck" ./cmd/vcheck) || { echo "MUTANT-ERROR driver build"; exit 2; }
 for p in "$@"; do
-  out=$(cd /verif/harness && VERIF_DIR=/verif VERIF_REPO_OVERRIDE="$wt" "$wt/.vcheck" $p $tier 2>&1); code=$?
+  out=$(cd "$snap/harness" && VERIF_DIR="$snap" VERIF_REPO_OVERRIDE="$wt" "$wt/.vcheck" $p $tier 2>&1); code=$?
   rules=$(echo "$out" | grep -E "^  rule=|violations rule=" | sed 's/ stream=.*//' | sort | uniq -c | sort -rn | head -4 | tr '\n' ';')
   echo "CHECK $p exit=$code $(echo "$out" | grep ^RESULT | sed 's/.*verdict=\([a-z]*\).*violations=\([0-9]*\).*wall=\(.*\)/verdict=\1 violations=\2 wall=\3/') :: $rules"
 done
